@@ -52,12 +52,29 @@ def gen_world(r, policy_bytes):
         for th in range(r.randrange(1, 4)):
             tid += 1
             tasks.append({"i": len(tasks), "tid": tid if th else tgid, "tgid": tgid, "uid": uid, "gid": gid, "cls": cls})
+    wide = bool(listed) and r.random() < 0.04
+    if wide:
+        # many threads inside connect() at the same moment (a burst of 100-150 redirected connects between their two hook points): within the
+        # capacity the program's maps have, every one of them still gets its record
+        tasks = []
+        for p in range(r.randrange(100, 151)):
+            tasks.append({"i": p, "tid": 20000 + p, "tgid": 20000 + p - (p % 3), "uid": 1000 + p % 7, "gid": 3000 + p % 5, "cls": "uid!=gid"})
     script = ["skip %d" % agent_tgid]
     for t in tasks:
         script.append("task %d %d %d %d %d" % (t["i"], t["tid"], t["tgid"], t["uid"], t["gid"]))
     for k, v in policy_bytes[combo]:
         script.append("policy %s %s" % (k, v))
     script.append("dumppolicy")
+    if wide:
+        ports = r.sample(range(32768, 61000), len(tasks))
+        conns, events = [], []
+        dests = sorted(listed)
+        for n, t in enumerate(tasks):
+            c = {"n": n, "task": t, "dest": r.choice(dests), "proto": TCP, "family": AF_INET, "sport": ports[n], "outcome": "ok"}
+            conns.append(c); events.append(("c4", c))
+        order = list(conns); r.shuffle(order)
+        events += [("tc", c) for c in order]
+        return {"combo": combo, "listed": listed, "tasks": tasks, "conns": conns, "events": events, "script_head": script, "agent_tgid": agent_tgid, "wide": True}
     # connect attempts split into the two hook invocations and interleaved across threads
     nconn = r.randrange(10, 200)
     pending = []      # connects whose first hook has run, waiting for the second
@@ -88,6 +105,14 @@ def gen_world(r, policy_bytes):
             pending.append(c); busy.add(t["i"])
         while pending and r.random() < 0.45:
             j = r.randrange(len(pending)); c2 = pending.pop(j); events.append(("tc", c2)); busy.discard(c2["task"]["i"])
+        if r.random() < 0.06:
+            # a task that is not inside connect() changes its credentials (a daemon dropping privileges, a set-uid helper gaining them): later
+            # connects are recorded with the credentials they are made with
+            free2 = [t for t in tasks if t["i"] not in busy and t["tgid"] != agent_tgid]
+            if free2:
+                t2 = r.choice(free2)
+                nu, ng = r.choice([(0, 0), (1001, 1001), (1002, 2000), (1003, 0), (0, 50)])
+                events.append(("cred", {"task": t2, "uid": nu, "gid": ng}))
     for c in pending:
         events.append(("tc", c))
     return {"combo": combo, "listed": listed, "tasks": tasks, "conns": conns, "events": events, "script_head": script, "agent_tgid": agent_tgid}
@@ -97,12 +122,16 @@ def reference(world):
     """statement semantics: returns per connection (expected ctx after hook 1, expected audit record or None); plus a stale-pending marker"""
     exp = {}
     stale = {}   # thread i -> conn whose first hook left a pending record that was never consumed
+    creds = {t["i"]: t["uid"] for t in world["tasks"]}
     for kind, c in world["events"]:
         t = c["task"]
+        if kind == "cred":
+            creds[t["i"]] = c["uid"]
+            continue
         agent = t["tgid"] == world["agent_tgid"]
         redirect = c["family"] == AF_INET and c["proto"] == TCP and c["dest"] in world["listed"] and not agent
         if kind == "c4":
-            exp[c["n"]] = {"ctx": ("127.0.0.1", 3080) if redirect else c["dest"], "record": None, "redirected": redirect, "tainted_by_stale": False}
+            exp[c["n"]] = {"ctx": ("127.0.0.1", 3080) if redirect else c["dest"], "record": None, "redirected": redirect, "tainted_by_stale": False, "uid": creds[t["i"]]}
             if redirect and c["outcome"] != "ok":
                 stale[t["i"]] = c
             elif redirect:
@@ -110,7 +139,7 @@ def reference(world):
         else:
             e = exp.setdefault(c["n"], {"ctx": c["dest"], "record": None, "redirected": False, "tainted_by_stale": False})
             if e["redirected"]:
-                e["record"] = {"uid": t["uid"], "pid": t["tgid"], "is_root": 1 if t["uid"] == 0 else 0, "ip": c["dest"][0], "port": c["dest"][1]}
+                e["record"] = {"uid": e["uid"], "pid": t["tgid"], "is_root": 1 if e["uid"] == 0 else 0, "ip": c["dest"][0], "port": c["dest"][1]}
             elif t["i"] in stale and not agent and c["family"] == AF_INET:
                 e["tainted_by_stale"] = True
                 stale.pop(t["i"], None)
@@ -120,7 +149,9 @@ def reference(world):
 def run_world(world):
     lines = list(world["script_head"])
     for kind, c in world["events"]:
-        if kind == "c4":
+        if kind == "cred":
+            lines.append("task %d %d %d %d %d" % (c["task"]["i"], c["task"]["tid"], c["task"]["tgid"], c["uid"], c["gid"]))
+        elif kind == "c4":
             lines.append("connect4 %d %d %d %s %d" % (c["task"]["i"], c["family"], c["proto"], c["dest"][0], c["dest"][1]))
         else:
             e_redirect = c["family"] == AF_INET and c["proto"] == TCP and c["dest"] in world["listed"] and c["task"]["tgid"] != world["agent_tgid"]
